@@ -1,0 +1,21 @@
+//go:build verif
+
+package consensus
+
+import (
+	"github.com/kardiachain/go-kardia/lib/log"
+	"github.com/kardiachain/go-kardia/types"
+)
+
+// VerifSetProposalBare runs the real setProposal on an otherwise empty ConsensusState that is at
+// (height, round) on chain chainID with validator set vals (vals.GetProposer() is the expected
+// proposer) and has no proposal yet.  It reports whether the proposal was stored and the error
+// setProposal returned.  Used by the signature-binding check (C11) of /verif: add-only, verif tag.
+func VerifSetProposalBare(chainID string, height uint64, round uint32, vals *types.ValidatorSet, p *types.Proposal) (bool, error) {
+	cs := &ConsensusState{}
+	cs.Logger = log.New()
+	cs.Height, cs.Round, cs.Validators = height, round, vals
+	cs.state.ChainID = chainID
+	err := cs.setProposal(p)
+	return cs.Proposal != nil, err
+}
